@@ -116,7 +116,7 @@ theorem nodeStep_mlt {s s' : Sys} {n : Name} {nd : Node} {perm : List Name} (hF 
           · subst e2; simp [setNode, hdn] at hk
           · simpa [setNode, e1, e2] using hk
     | some y =>
-      simp only [hd]
+      simp only []
       split
       · exact mlt_same rfl (by simp [restOf, hc, hr, hsu, rOf])
       · exact mlt_upd hn hN (SameM.of_nodes rfl) (Or.inr ⟨hx.1, by rw [restOf_setNode]; omega⟩)
